@@ -245,6 +245,25 @@ def build(case):
     return p, inputs
 
 
+def classify_reject(case):
+    """known class (FINDINGS.md, finding 2): an input promoted with a FLAT FULL slice to a name shared
+    with other promoted inputs makes the shared node take the flattened shape"""
+    def full_flat(lv):
+        if not (lv['flat'] is True and lv['ix']['t'] == 'slice' and len(lv['in_shape']) > 1):
+            return False
+        a, b, c = lv['ix']['v']
+        return a in (None, 0) and b is None and c in (None, 1)
+    byname = {}
+    for t in case['sinks']:
+        for i in t['inputs']:
+            if i['style'] in ('implicit', 'auto'):
+                byname.setdefault(i['src'], []).append(i)
+    for name, ins in byname.items():
+        if len(ins) > 1 and any(lv['where'] == 'root' and full_flat(lv) for i in ins for lv in i['chain']):
+            return 'flat-full-slice-on-shared-promoted-name'
+    return 'setup-rejected'
+
+
 def handle(case):
     kind = case['kind']
     try:
@@ -254,8 +273,8 @@ def handle(case):
             if not a['defaults']:
                 p.set_val(a['name'], np.array(a['vals'], dtype=float).reshape(a['shape']), units=a['units'])
         p.final_setup()
-    except Exception as e:   # the model accepts generated chains; a refusal is reported through the comparison
-        return {'res': {'e': 1}, 'ok': False, 'sig': 'setup-rejected', 'kind': kind,
+    except Exception as e:   # every generated chain is valid: a refusal is a failure of the property
+        return {'res': {'e': 1}, 'ok': False, 'sig': classify_reject(case), 'kind': kind,
                 'msg': 'setup/final_setup raised %s: %s' % (type(e).__name__, str(e)[:600])}
     # track the z of the feedback sink
     if case['sinks']:
